@@ -147,7 +147,7 @@ def _check_unrestriction(ctx, cu, mo_cls):
 
     def mk(kind="restricted", occs="sym", aminusb="sym", coeffs=True, energies=True, irreps=True):
         o = sym_array("o", (3,)) if occs == "sym" else (None if occs is None else np.array(occs, dtype=float))
-        d = sym_array("d", (3,)) if aminusb == "sym" else None
+        d = sym_array("d", (3,)) if aminusb == "sym" else (np.array(aminusb, dtype=float) if isinstance(aminusb, (list, tuple)) else None)
         n = 3 if kind != "unrestricted" else 6
         return Rec(mo_cls, kind=kind, norba=3, norbb=3, occs=(sym_array("o", (n,)) if kind == "unrestricted" else o), coeffs=sym_array("c", (2, n)) if coeffs else None, energies=sym_array("e", (n,)) if energies else None, irreps=[chr(65 + i) for i in range(n)] if irreps else None, occs_aminusb=d if kind == "restricted" else None)
 
@@ -155,11 +155,20 @@ def _check_unrestriction(ctx, cu, mo_cls):
     cases = [("explicit occs_aminusb", dict()), ("missing optional arrays", dict(coeffs=False, energies=False, irreps=False)), ("no occupations", dict(occs=None, aminusb=None))]
     for occs in ([2.0, 1.0, 0.0], [2.0, 2.0, 0.0], [1.8, 0.2, 0.0], [1.0, 1.0, 1.0], [0.9999999, 1.0000001, 0.0], [2.0, 1.0 - 1e-9, 1e-9], [2.0, 1.0 + 1e-11, 1.0 - 1e-11], [2.0, 1.0 - 1e-5, 1e-5]):
         cases.append((f"heuristic occupations {occs}", dict(occs=occs, aminusb=None)))
+    cases.append(("explicit occs_aminusb, beta majority [1,1,0] / [-1,-1,0]", dict(occs=[1.0, 1.0, 0.0], aminusb=[-1.0, -1.0, 0.0])))
+    cases.append(("explicit occs_aminusb, alpha majority [2,1,0] / [0,1,0]", dict(occs=[2.0, 1.0, 0.0], aminusb=[0.0, 1.0, 0.0])))
     try:
         for label, kw in cases:
             src = mk(**kw)
             ref = src.clone()
-            new = ev().run_free(cu, [src], {})
+            try:
+                new = ev().run_free(cu, [src], {})
+            except NotSymbolic as exc:
+                if kw.get("aminusb", "sym") == "sym" and kw.get("occs", "sym") == "sym":
+                    # a decision on symbolic occupations (e.g. an ordering): the constant patterns decide instead
+                    ctx.note(f"convert_to_unrestricted ({label}): not decidable on symbols ({exc}); decided on the constant occupation patterns")
+                    continue
+                raise
             if not isinstance(new, Rec):
                 ctx.violate("R3", f"{label}: convert_to_unrestricted does not return orbitals", cu, cu.node, construct=f"unrestriction {label}: result")
                 continue
